@@ -41,6 +41,8 @@ type FuncSpec struct {
 	Orders    []*OrderClause // "order A before B": no A is reachable once a B has been executed
 	Reads     []*ReadsClause // "reads_fields T except a,b": the function reads every other field of struct T
 	FeedsOnly []*FeedsClause // "feeds_unchanged T into f, g": every field of T read here flows, unchanged, only into calls of f / g
+	ReturnsFresh bool        // "returns_fresh": result 0 is always an object allocated by this call (or by a callee with the same clause), never one that existed before
+	NoStoreThrough []string  // "no_store_through T [except f1, f2]": nothing reachable from here writes memory reached through a *T (shared, long-lived data)
 	ControlOnly []string     // "control_only T.f, T.g": those fields only ever decide branches, here and in everything reachable in the package
 	Trusted   bool
 	MayPanic  bool
@@ -161,7 +163,7 @@ func NewSpecFile() *SpecFile {
 }
 
 var clauseKeywords = map[string]bool{"requires": true, "ensures": true, "invariant": true, "decreases": true,
-	"assigns": true, "preserves": true, "guard": true, "order": true, "reads_fields": true, "control_only": true, "feeds_unchanged": true, "loop": true, "may_panic": true, "trusted": true, "pure": true, "abstract": true, "axiom": true,
+	"assigns": true, "preserves": true, "guard": true, "order": true, "reads_fields": true, "control_only": true, "feeds_unchanged": true, "returns_fresh": true, "no_store_through": true, "loop": true, "may_panic": true, "trusted": true, "pure": true, "abstract": true, "axiom": true,
 	"func": true, "lemma": true, "noinline": true, "opaque": true, "flag": true, "let": true, "may_panic_at": true, "extends": true, "foreach_field": true, "ghost": true, "assert": true}
 
 // ParseSpecFile reads //@ lines from path and adds them to sf.
@@ -373,6 +375,12 @@ func (sf *SpecFile) ParseSpecFile(path string) error {
 					cur.Assigns = append(cur.Assigns, cs...)
 					cur.HasAssign = true
 				}
+			case "no_store_through":
+				cur.NoStoreThrough = append(cur.NoStoreThrough, strings.TrimSpace(r.text))
+				curLoop = nil
+			case "returns_fresh":
+				cur.ReturnsFresh = true
+				curLoop = nil
 			case "feeds_unchanged":
 				tn, into, ok := strings.Cut(strings.TrimSpace(r.text), " into ")
 				if !ok {
